@@ -1,5 +1,5 @@
 META = {
- 'manifest': {'text': 'Bounded symbolic model checking of the real frequent_items_sketch<uint64_t> with an 8-slot map (purge above 6 active items): concrete distinct items with symbolic weights, updates and one merge that overflows the receiving map (purge during the replay of the other sketch): for every item lower <= true weight <= upper, estimate in between, upper - lower = maximum error, total weight exact, NO_FALSE_NEGATIVES / NO_FALSE_POSITIVES result-set guarantees, descending order. Unit level: one purge step (subtract_and_keep_positive_only) of the real 8-slot reverse-purge map with symbolic values and a symbolic amount, from key layouts whose clusters wrap around the table end: survivors stay findable with value - amount, the rest are removed, counts agree. Merge that purges during the replay (concrete stream, symbolic accumulated offsets injected on both sides): the maximum error accounts for both offsets plus what the purges of the merge subtracted, and no item loses weight unaccounted.',
+ 'manifest': {'text': 'Bounded symbolic model checking of the real frequent_items_sketch<uint64_t> with an 8-slot map (purge above 6 active items): concrete distinct items with symbolic weights, updates and one merge that overflows the receiving map (purge during the replay of the other sketch): for every item lower <= true weight <= upper, estimate in between, upper - lower = maximum error, total weight exact, NO_FALSE_NEGATIVES / NO_FALSE_POSITIVES result-set guarantees, descending order. Unit level: one purge step (subtract_and_keep_positive_only) of the real 8-slot reverse-purge map with symbolic values and a symbolic amount, from key layouts whose clusters wrap around the table end: survivors stay findable with value - amount, the rest are removed, counts agree. Merge that purges during the replay (concrete stream, symbolic accumulated offsets injected on both sides): the maximum error accounts for both offsets plus what the purges of the merge subtracted, and no item loses weight unaccounted. Merge of a sketch whose purge removed every counter (state injected: symbolic total weight and offset on an empty map) into a sketch with a symbolic weight and offset: total weight and maximum error add exactly.',
               'note': 'item values and all but one weight concrete (a symbolic weight makes the zero-weight early return a symbolic branch; each one doubles the state symex keeps), one weight symbolic 1..1000; merges that purge during the replay are decided for a concrete stream with symbolic injected offsets only; result-set queries: no verdict; the epsilon clause, string items and serialization outside'},
  'functions_encoded': ['frequent_items_sketch::update/merge/get_estimate/get_lower_bound/get_upper_bound/get_maximum_error/get_total_weight/get_frequent_items', 'reverse_purge_hash_map::adjust_or_insert/resize/purge/subtract_and_keep_positive_only/hash_delete/get/internal_adjust_or_insert', 'std::nth_element instantiation (median of the purge sample)', 'std::sort of the result rows', 'reverse_purge_hash_map::subtract_and_keep_positive_only / hash_delete / get / adjust_or_insert called directly (unit level)', 'frequent_items_sketch::merge with purge() inside the replayed update() (offsets injected)'],
  'bounds': 'lg_max_map_size = lg_start = 3 (8 slots); <= 7 distinct concrete items, ONE symbolic weight 1..1000 (others concrete); one purge (7th item) or one merge without purge in the quick tier; purge step: 3..6 concrete keys in 6 (quick) / 9 (thorough) home-slot layouts, values and amount symbolic 0..10^6',
@@ -43,4 +43,10 @@ def queries(tier):
         qs.append(Q(f'fi_mergeoffset_a{na}_b{nb}_ov{ov}', 'fi', 'c12_mergeoffset.c', defs={'NA': na, 'NB': nb, 'OV': ov}, unwind=14,
                     unwindset={'^(harness|verif_mem.*|verif_new.*)$': 40, 'introselect|heap_select|insertion_sort|adjust_heap|unguarded': 9}, timeout=(500 if tier == 'quick' else 1500), native_vectors=200,
                     c_defs={'VERIF_NEW_CAPN': 16, 'VERIF_VEC_CAP': 10}, mem_gb=16))
+    # a sketch whose purge removed every counter: merged into another sketch (symbolic weight + injected offset there) / through a bytes round trip
+    for mode in (0,):   # mode 1 (bytes round trip of that state) found the loss on the unrepaired tree (solver counterexample, replayed); on the repaired tree the
+                        # non-empty image path (array writer / reader) does not finish symex (300 s): not in the tiers, the repaired round trip is checked natively in the fix commit
+        qs.append(Q(f'fi_allpurged_{"merge" if mode == 0 else "roundtrip"}', 'fi', 'c12_mergepurged.c', defs={'MODE': mode}, unwind=14,
+                    unwindset={'^(harness|verif_mem.*|verif_new.*)$': 80, 'introselect|heap_select|insertion_sort|adjust_heap|unguarded': 9}, timeout=(500 if tier == 'quick' else 1500), native_vectors=200,
+                    c_defs=dict({'VERIF_NEW_CAPN': (16 if mode == 0 else 40), 'VERIF_VEC_CAP': 10}, **({'VERIF_NEW_MAX': None} if mode == 1 else {})), mem_gb=16))
     return qs
